@@ -38,6 +38,16 @@ func gtabThroughDisk(c *wk.Case, info *gtab.Info, tp gtab.Type, damage bool) (*g
 		c.Count("encoder_refused_shape", 1)
 		return nil, false
 	}
+	if c.T.Chance(1, 5) {
+		// the table as another font tool would write it: extension
+		// lookups in a small table, sometimes with a shared offset
+		var note string
+		data, note = simgen.RewrapGtab(c.T, data, tp == gtab.TypeGpos, c.T.Chance(1, 2))
+		if note != "" {
+			c.Count("tables_rewritten_with_extension_lookups", 1)
+			c.Logf("%s table: %s", tp, note)
+		}
+	}
 	if damage {
 		nf := 1 + c.T.Weighted(5, 2, 1)
 		multiRange = 0
